@@ -29,6 +29,11 @@ def programs(thorough, rng):
         progs.append((["ins:%d:5" % id_], ["del:%d" % id_, "q:%d" % id_]))
     for a, b in progs:
         lines.append("explore t0=%s t1=%s mode=dfs bound=%d max=%d" % (";".join(a), ";".join(b), 2, 2500 if thorough else 250))
+    # the same through the RPC handlers (Query = read with metadata; build-time copy of kyrodb_server.rs, `limits=` world)
+    for w in ("sins:0:1:5", "sdel:0:1", "sum:0:1:7", "sins:0:1:5;sdel:0:1", "sdel:0:1;sins:0:1:6"):
+        for r in ("sq:0:1", "sq:0:1;sq:0:1"):
+            for warm in ("warm=sins:0:1:1", "warm=sins:0:1:1;flush"):
+                lines.append("explore limits=5,5 %s t0=%s t1=%s mode=dfs bound=2 max=%d" % (warm, w, r, 2000 if thorough else 220))
     # three threads, random schedules
     for _ in range(80 if thorough else 14):
         id_ = rng.choice(ids)
@@ -72,13 +77,23 @@ def run(tier, seed, replay):
         runs += r["runs"]
         if r["deadlock"] not in ("-", ""):
             continue        # C08's business
+        srv = " limits=" in line
         for h in r["histories"]:
             hist += 1
-            res = conc.check_history(h, INIT)
+            if srv:
+                # RPC world: tenant 0's document 1 starts as (1,1); op names map onto the register operations
+                for o in h["ops"]:
+                    p = o["op"].split(":")
+                    o["op"] = ":".join([{"sins": "ins", "sdel": "del", "sum": "um", "sq": "dm"}.get(p[0], p[0])] + p[2:])
+                    if o["res"].startswith("err:"):
+                        o["res"] = "err"
+            res = conc.check_history(h, {1: ("1", "1")} if srv else INIT)
             if res:
                 id_, txt, kind = res
                 if kind == "order" and "flush" in line:
                     kind = "order-drain"      # a hot-tier drain runs concurrently (see KF-C05-drain-resurrects-deleted)
+                if srv:
+                    kind += "-rpc"
                 bad.setdefault(kind, []).append((line, id_, txt))
     for kind, items in bad.items():
         line, id_, txt = min(items, key=lambda x: len(x[2]))
